@@ -40,7 +40,7 @@ def groups():
                        defines=['-DVF_B=1', '-DVF_LENLO=5', '-DVF_LENHI=5', '-DVF_CODELO=%d' % (27 * k), '-DVF_CODEHI=%d' % (27 * (k + 1))],
                        what=chk + 'key sequences of length 5 over {0,1,2} whose last two keys are %d,%d (27 of 243): push all, pop all, pop/get on the empty heap = NULL' % (k % 3, k // 3),
                        scope='27 of the 243 key sequences of length 5, keys {0,1,2}'))
-    G.append(Group('heap.b.mix', ['C07'], 'B', S, 'h_b_mix', sources=src, defines=['-DVF_B=2'], unwind=12, replay=True, timeout=900,
+    G.append(Group('heap.b.mix', ['C07'], 'B', S, 'h_b_mix', sources=src, defines=['-DVF_B=2', '-DVF_CMP_MAG'], unwind=12, replay=True, timeout=900,
                    what=chk + 'interleavings: for s = 1..7 build size s, three pop/push pairs at size s (slot reuse), drain to s/2, push/push/pop ramp to size 7 '
                         '(pops at sizes 2..8), drain, pop on empty; keys 3,1,4,1,5,9,2,6,... mod 4',
                    scope='heaps of size 0..8, pops at every size 1..8; keys from {0,1,2,3} with ties'))
